@@ -25,6 +25,37 @@ func pathString(segs []seg) string {
 	return strings.Join(parts, ".")
 }
 
+// hostileKeys: keys that look like something else - list subscripts, names with white space at an edge (and their
+// trimmed twins), a path-like separator, reserved-looking names.
+var hostileKeys = []string{"a", "b", "k", "0", "1", "10", "k ", " k", "a/b", "b/c", "#attr", "_seq"}
+
+// keyAlphabet returns base, or (one case in four) the hostile alphabet.
+func keyAlphabet(r *rand.Rand, base []string) []string {
+	if r.Intn(4) == 0 {
+		return hostileKeys
+	}
+	return base
+}
+
+// pathStringR is pathString with, now and then, a zero-padded (still decimal) subscript.
+func pathStringR(r *rand.Rand, segs []seg) string {
+	parts := make([]string, len(segs))
+	for i, s := range segs {
+		parts[i] = s.name
+		if s.idx >= 0 {
+			switch r.Intn(8) {
+			case 0:
+				parts[i] += "[0" + strconv.Itoa(s.idx) + "]"
+			case 1:
+				parts[i] += "[00" + strconv.Itoa(s.idx) + "]"
+			default:
+				parts[i] += "[" + strconv.Itoa(s.idx) + "]"
+			}
+		}
+	}
+	return strings.Join(parts, ".")
+}
+
 func hasWildcard(segs []seg) bool {
 	for _, s := range segs {
 		if s.name == "*" {
